@@ -110,6 +110,9 @@ def run(R, only=None):
                          f"C01 plan rewrite rule `{name}`: {' '.join(lhs.split())} => {' '.join(rhs.split())} changes the number of rows returned for the binding "
                          f"{wit} (refuted in the model: Gen/PlanObligations.v)",
                          {"kind": "rule-instance", "rule": name, "lhs": lhs, "rhs": rhs, "binding": wit})
+    # ---- ground instances of the modelled plan rules: executors vs plan semantics, and lhs vs rhs on the executors
+    from . import planinst
+    pstats = planinst.run(R, TR, info, src)
     # ---- rule instances on the real engine: optimiser on vs off -------------------------------------------
     ints, bools = ["null", "0", "1", "-1", "2"], ["null", "true", "false"]
     rows = [(a, b, c, p, q) for a in ints[:4] for b in ints[:4] for c in ["null", "0", "2"] for p in bools for q in bools]
@@ -304,7 +307,7 @@ def run(R, only=None):
         "plan_rules_proved_sound": info.get("plan_sound", []), "plan_rule_instances_proved_sound": info.get("plan_instances_sound", []),
         "plan_rules_refuted": sorted(info.get("plan_refuted", {})),
         "plan_rules_not_proved": sorted(set(info.get("plan_rules", [])) - set(info.get("plan_sound", [])) - set(info.get("plan_refuted", {}))),
-        "rule_instances_differing": inst_diff, "query_kind_distribution": kinds, "queries_compared": compared,
+        "plan_rule_instances": pstats, "rule_instances_differing": inst_diff, "query_kind_distribution": kinds, "queries_compared": compared,
     })
     R.coverage["trusted_base"].append("tools/translate_rules.py (regex reading of rw!(..) and of the pushdown(..) helper; its reading of names and patterns is "
                                       "compared with the compiled rule objects on every run; its reading of the side conditions is trusted)")
